@@ -308,10 +308,9 @@ func runConsumerScenario(t testing.TB, rec *vRec, sc *consScenario) {
 			<-st.closedE
 			close(done)
 		}()
-		select {
-		case <-done:
+		if vAwait(done, vCloseMax) {
 			rec.Ev("pc_close_ret", kv{"part": part})
-		case <-time.After(vCloseMax):
+		} else {
 			rec.Ev("hang", kv{"what": "pc_close", "part": part})
 		}
 	}
@@ -365,9 +364,8 @@ func runConsumerScenario(t testing.TB, rec *vRec, sc *consScenario) {
 					st0.pc.AsyncClose()
 					_ = st0.pc.Close()
 				}()
-				select {
-				case <-done:
-				case <-time.After(vCloseMax):
+				if vAwait(done, vCloseMax) {
+				} else {
 					rec.Ev("hang", kv{"what": "pc_close_again", "part": st.Part})
 				}
 			}
@@ -416,10 +414,9 @@ func runConsumerScenario(t testing.TB, rec *vRec, sc *consScenario) {
 		wg.Wait()
 		close(done)
 	}()
-	select {
-	case <-done:
+	if vAwait(done, vCloseMax) {
 		rec.Ev("close_ret", nil)
-	case <-time.After(vCloseMax):
+	} else {
 		rec.Ev("hang", kv{"what": "close"})
 	}
 	rec.Ev("fin", nil)
